@@ -32,9 +32,13 @@ import oas_codec as oc  # noqa: E402
 VERIF = os.environ.get("VERIF_DIR", os.path.dirname(os.path.dirname(os.path.abspath(__file__))))
 ASAN_DEFAULT = "detect_leaks=0:abort_on_error=0:exitcode=86:allocator_may_return_null=1:max_allocation_size_mb=4096"
 T0 = time.time()
+CAP = int(os.environ.get("C04_VIOLATION_CAP", "3"))  # violations emitted per class and unit (all are counted)
 
 
 # ============================================================================ driver batches
+MAX_CRASHES_PER_BATCH = 4
+
+
 def run_driver(exe, jobs, scratch, per_job_timeout=20.0):
     """Run the job lines through the driver.  -> list of results (dict) or {'crash': text} per job.  A process
     that dies is attributed to the first job without a result; that job is re-run alone to capture the report and
@@ -44,7 +48,13 @@ def run_driver(exe, jobs, scratch, per_job_timeout=20.0):
     results = [None] * len(jobs)
     start = 0
     serial = 0
+    crashes = 0
     while start < len(jobs):
+        if crashes >= MAX_CRASHES_PER_BATCH:
+            # every crash costs a sanitizer report and two process starts: stop attributing, report the rest as not executed
+            for k in range(start, len(jobs)):
+                results[k] = {"not_executed": True}
+            break
         jf = os.path.join(scratch, "jobs.%d.%d" % (os.getpid(), serial))
         serial += 1
         with open(jf, "w") as f:
@@ -94,6 +104,7 @@ def run_driver(exe, jobs, scratch, per_job_timeout=20.0):
             p = text.find("ERROR: AddressSanitizer")
             results[culprit] = {"crash": (text[p:] if p >= 0 else text)[:1800] or "exit code %d" % solo_rc, "rc": solo_rc}
         start = culprit + 1
+        crashes += 1
     return results
 
 
@@ -900,6 +911,10 @@ def exec_d1(space, ids, cases, exe, scratch):
         enc.append(((g, i), case, data, info))
     results = run_driver(exe, ["readhex " + e[2].hex() for e in enc], scratch)
     for ((g, i), case, data, info), r in zip(enc, results):
+        if r is not None and r.get("not_executed"):
+            count("cases_not_executed_after_repeated_crashes")
+            res["incomplete"] = True
+            continue
         count("cases")
         count("cases:" + space.name)
         if info["features"]:
@@ -908,6 +923,16 @@ def exec_d1(space, ids, cases, exe, scratch):
             count("feature:" + f)
         replay = "sub=%s g=%d i=%d" % (space.name, g, i)
         lay = case["layout"]
+        for k in info["taken"]:  # measured coverage of the choice points: which field of which record kind was left implicit
+            ci, ei, fld = k.split(".", 2)
+            if ci == "f":
+                ei, fld = "file", ei + "." + fld
+            isprop = fld.startswith("p") and fld[1:2].isdigit()
+            fname = ("property." + fld.rsplit(".", 1)[-1]) if isprop else fld
+            if ci.isdigit() and ei.isdigit():
+                count("implicit:%s.%s" % (lay["cells"][int(ci)]["elements"][int(ei)]["kind"], fname))
+            else:
+                count("implicit:%s.%s" % ({"f": "file", "n": "cellname"}.get(ci, "cell"), fname))
         tags0 = {k: (v if isinstance(v, int) else str(v)) for k, v in case["label"].items()}
         tags0.update(choice_tags(case["choices"], info))
         cj = {"hex": data.hex(), "layout": summarize_layout(lay), "choices": jsonable(case["choices"])}
@@ -929,7 +954,7 @@ def exec_d1(space, ids, cases, exe, scratch):
         for cls, tags, detail in mm:
             key = "viol:%s/%s" % (space.name, cls)
             count(key)
-            if cnt[key] <= 3:
+            if cnt[key] <= CAP:
                 t = dict(tags0)
                 t.update({k: (v if isinstance(v, int) else str(v)) for k, v in tags.items()})
                 res["violations"].append({"sub_check": space.name, "class": cls, "tags": t, "case": cj, "detail": detail[:1200], "replay_args": replay})
@@ -1076,6 +1101,8 @@ def main():
                     continue
                 per_space[n]["done_groups"] += g1 - g0
                 per_space[n]["cases"] += res["counters"].get("cases", 0)
+                if res.get("incomplete"):
+                    per_space[n]["skipped"] = True
                 if res["counters"]:
                     emit({"type": "counters", "c": res["counters"]})
                 for t in res.get("internal", []):
@@ -1083,7 +1110,7 @@ def main():
                 for v in res["violations"]:
                     k = v["sub_check"] + "/" + v["class"]
                     viol_emitted[k] = viol_emitted.get(k, 0) + 1
-                    if viol_emitted[k] <= 4:
+                    if viol_emitted[k] <= max(4, CAP):
                         emit(dict(v, type="violation"))
                 for s in res["samples"]:
                     samples_emitted[s["sub_check"]] = samples_emitted.get(s["sub_check"], 0) + 1
@@ -1245,10 +1272,11 @@ class D2Shapes(D2Space):
         name, v = self.shapes[g]
         cmds = ["cell A", "poly 5 6 " + " ".join(pt(p) for p in v)]
         out = []
+        ctol = {"circle.n64.r10000": 0.05, "circle.n100.r250000": 0.5, "circle.n16.r2000": 0.05}.get(name, 1e-3)  # large enough for grid-rounded vertices
         if tier == "thorough":
-            opts = [(lvl, fl, tol) for fl in range(256) for lvl in (0, 1, 6, 9) for tol in ((0, 1e-3) if name.startswith("circle") else (0,))]
+            opts = [(lvl, fl, tol) for fl in range(256) for lvl in (0, 1, 6, 9) for tol in ((0, ctol) if name.startswith("circle") else (0,))]
         else:
-            opts = [(lvl, fl, tol) for fl in (0x00, 0x10, 0x20, 0x30) for lvl in (0, 6) for tol in (0, 1e-3)] + [(6, 0x3F | 0x40, 1e-3), (0, 0x3F | 0x80, 0)]
+            opts = [(lvl, fl, tol) for fl in (0x00, 0x10, 0x20, 0x30) for lvl in (0, 6) for tol in (0, ctol)] + [(6, 0x3F | 0x40, ctol), (0, 0x3F | 0x80, 0)]
         for lvl, fl, tol in opts:
             out.append({"cmds": cmds, "level": lvl, "flags": fl, "tol": tol, "hints": {}, "label": {"shape": name, "level": lvl, "flags": fl, "tol": tol}})
         return out
@@ -1705,6 +1733,10 @@ def exec_d2(space, ids, cases, exe, scratch):
     paths = [os.path.join(scratch, "d2.%d.oas" % k) for k in range(len(cases))]
     results = run_driver(exe, [d2_job(c, p) for c, p in zip(cases, paths)], scratch)
     for (g, i), case, path, r in zip(ids, cases, paths, results):
+        if r is not None and r.get("not_executed"):
+            count("cases_not_executed_after_repeated_crashes")
+            res["incomplete"] = True
+            continue
         count("cases")
         count("cases:" + space.name)
         replay = "sub=%s g=%d i=%d" % (space.name, g, i)
@@ -1720,7 +1752,7 @@ def exec_d2(space, ids, cases, exe, scratch):
         def viol(cls, tags, detail):
             key = "viol:%s/%s" % (space.name, cls)
             count(key)
-            if cnt[key] <= 3:
+            if cnt[key] <= CAP:
                 t = dict(tags0)
                 t.update({k: (v if isinstance(v, int) else str(v)) for k, v in tags.items()})
                 res["violations"].append({"sub_check": space.name, "class": cls, "tags": t, "case": cj, "detail": detail[:1200], "replay_args": replay})
